@@ -65,12 +65,6 @@ Definition db_user_mirror (d : db) : Prop := Forall user_mirror (d_tabs d).
 (* ------------------------------------------------------------------------------------ *)
 (** * Known classes (each is a narrow, executable predicate on the statement and the state) *)
 
-Fixpoint has_dup (l : list key) : bool :=
-  match l with
-  | [] => false
-  | k :: r => key_mem k r || has_dup r
-  end.
-
 (** some new row satisfies every CHECK the executors know but falsifies a declared one
     (a CHECK added by ALTER TABLE that only reached the storage copy of the schema) *)
 Definition unenforced_check_hit (s : schema) (rows : list row) : bool :=
@@ -116,22 +110,6 @@ Definition kc_update (t : table) (asg : list (nat * sexpr)) (w : option pred) : 
       end
   end.
 
-Fixpoint rows_same (a b : list row) : bool :=
-  match a, b with
-  | [], [] => true
-  | x :: a', y :: b' => key_eqb x y && rows_same a' b'
-  | _, _ => false
-  end.
-
-(** rollback-leaves-user-index-stale (C13): a table with a user index whose rows changed
-    since BEGIN *)
-Fixpoint kc_rollback (cur snap : list table) : bool :=
-  match cur, snap with
-  | c :: cur', s :: snap' =>
-      (negb (uidx_nil c) && negb (rows_same (t_rows c) (t_rows s))) || kc_rollback cur' snap'
-  | _, _ => false
-  end.
-
 (** savepoint-undo-leaves-user-index-stale (C14): an undone insert into a table with a user index *)
 Definition kc_rollback_to (d : db) (name : Z) : bool :=
   match d_txn d with
@@ -159,17 +137,14 @@ Definition known_class (s : stmt) (d : db) : bool :=
       end
   | SUpdate ti asg w => with_tab d ti (fun t => kc_update t asg w)
   | SDelete _ _ | STruncate _ => false
-  (* create-unique-index-over-duplicates *)
-  | SCreateIndex _ ti uniq cols => with_tab d ti (fun t => uniq && has_dup (somes (uq_kf cols) (t_rows t)))
-  | SDropIndex _ => false
+  | SCreateIndex _ _ _ _ | SDropIndex _ => false
   (* alter-add-constraint-unvalidated *)
   | SAddPk ti cols => with_tab d ti (fun t => match s_pk (t_sch t) with
                                              | Some _ => false
                                              | None => has_dup (somes (pk_kf cols) (t_rows t)) end)
   | SAddUnique ti cols => with_tab d ti (fun t => has_dup (somes (uq_kf cols) (t_rows t)))
   | SAddCheck ti c => with_tab d ti (fun t => existsb (fun r => negb (check_ok c r)) (t_rows t))
-  | SBegin | SCommit | SSavepoint _ | SRelease _ => false
-  | SRollback => match d_txn d with Some x => kc_rollback (d_tabs d) (x_snap x) | None => false end
+  | SBegin | SCommit | SRollback | SSavepoint _ | SRelease _ => false
   | SRollbackTo name => kc_rollback_to d name
   end.
 
